@@ -108,6 +108,11 @@ pub fn run(seed: u64, n: usize, out: &mut dyn Write) {
                     let rr = *rng.pick(&[0u32, 2, 65535, 300]);
                     let c = *rng.pick(&[0i32, -1, 32767, -32768, 5, 100]);
                     let ls = if rng.chance(1, 10) { format!("+{l}") } else if rng.chance(1, 10) { format!("0{l}") } else { l.to_string() };
+                    // numeric cells may be quoted as well
+                    let q = |rng: &mut Rng, s: String| -> String { if rng.chance(1, 6) { format!("\"{s}\"") } else { s } };
+                    let ls = q(&mut rng, ls);
+                    let rs = q(&mut rng, rr.to_string());
+                    let cs = q(&mut rng, c.to_string());
                     let nf = 1 + rng.below(3);
                     let mut feats = vec![];
                     for _ in 0..nf {
@@ -117,7 +122,7 @@ pub fn run(seed: u64, n: usize, out: &mut dyn Write) {
                         feats.push(String::new()); // feature ending in ','
                     }
                     let feature = feats.join(",");
-                    file.push_str(&format!("{sr},{ls},{rr},{c},{feature}"));
+                    file.push_str(&format!("{sr},{ls},{rs},{cs},{feature}"));
                     let last = r + 1 == nrows;
                     if !last || rng.chance(3, 4) {
                         file.push_str(if rng.chance(1, 5) { "\r\n" } else { "\n" });
